@@ -44,7 +44,7 @@ def parse_kv(line):
         out[m.group(1)].append(v)
     flat = {}
     for k, vs in out.items():
-        if k in ('subst', 'callrename'):
+        if k in ('subst', 'callrename', 'annotate', 'closure_contract'):
             flat[k] = []
             for v in vs:
                 a, b = v.split('`=>`')
@@ -356,7 +356,7 @@ class Extractor:
                     body = body[:k] + '\n' + text + '\n' + body[k:]
                 elif g['kind'] == 'name_iter':
                     # `for x in E` -> `for x in it: E` (ghost name for the prophetic iterator)
-                    mm = re.match(r'(for\s+\w+\s+in\s+)', body[m.start():])
+                    mm = re.match(r'(for\s+(?:\w+|\([^)]*\))\s+in\s+)', body[m.start():])
                     if not mm:
                         raise LostAnchor('name_iter anchor is not a for loop')
                     body = body[:m.start() + mm.end()] + text.strip() + ': ' + body[m.start() + mm.end():]
@@ -378,6 +378,21 @@ class Extractor:
             body = body2
         sig = r10_const_generic(sig, hdr, rules)
         body = r10_const_generic(body, hdr, rules)
+        for a, b in kv.get('annotate', []):
+            # R14: a type annotation is added to a `let` (rustc checks it against the inferred type, so it
+            # cannot change the meaning); needed when a spliced invariant mentions the variable before
+            # inference has fixed its type
+            if body.count(a) != 1:
+                raise LostAnchor('%s: fn %s: annotate anchor `%s` matches %d times' % (rel, kv['fn'], a, body.count(a)))
+            body = body.replace(a, b)
+            rules.append('R14')
+        for a, b in kv.get('closure_contract', []):
+            # R2 for closures: `|| BODY` -> `|| -> (e: T) ensures ... { BODY }`; the closure body must reappear verbatim
+            inner = a.split('||', 1)[1].strip()
+            if body.count(a) != 1 or inner not in b or not b.lstrip().startswith('||'):
+                raise LostAnchor('%s: fn %s: closure anchor `%s` not found exactly once' % (rel, kv['fn'], a))
+            body = body.replace(a, b)
+            rules.append('R2-closure')
         if kv.get('desugar_bitand') == 'yes':
             # R13: operator desugaring `a & b` -> `a.bitand(b)` (the language definition of `&`); this Verus
             # build hits an internal error (codegen_select_candidate) on operator syntax over `&T: BitAnd`
@@ -450,7 +465,11 @@ class Extractor:
                          lines=[src.line_of(span[0]), src.line_of(span[1])],
                          sha256=hashlib.sha256(text.encode()).hexdigest(), rules=['R1', 'R4'], mode=self.mode,
                          contract_clauses=0))
-        return self.r4_struct(text)
+        t = self.r4_struct(text)
+        if 'vattr' in kv:
+            # verifier-only attributes (no effect on the compiled type)
+            t = kv['vattr'] + '\n' + t
+        return t
 
     # ------------------------------------------------------------------ unit assembly
     def expand_item(self, name, meta, linemap, out):
